@@ -293,7 +293,7 @@ def generate(seed: int, tier: str) -> dict:
         if rng.random() < 0.12:
             form = "abs"
         files[src]["imports"]["nxt"] = {"to": dst, "form": form, "spelling": rel_spelling(rng, posixpath.dirname(src), dst), "paren": rng.random() < 0.15,
-                                        "bare": rng.random() < 0.35}
+                                        "bare": rng.random() < 0.35, "gap": st("gap").choice(IMPORT_GAPS)}
     # decoy imports so that a wrong base directory finds *some* file
     if fr < 0.3 and len(chain) > 1:
         k = rng.randrange(0, len(chain) - 1)
@@ -314,6 +314,10 @@ def generate(seed: int, tier: str) -> dict:
     entry_form = rng.choice(["rel", "rel", "rel_dot", "abs", "detour"])
     return {"prop": "C17", "engine": "fs", "seed": seed, "tier": tier, "dirs": dirs, "files": files, "chain": chain,
             "fault": fault, "events": events, "start_cwd": start_cwd, "entry_form": entry_form}
+
+
+# what stands between `import` and its argument: trivia of any kind leaves the literal the same path of the same file
+IMPORT_GAPS = [" "] * 6 + ["\n    ", " # pinned\n    ", "\n    # keep in sync\n    ", " /* c */ ", "\n    /* c */\n    ", "\n\n    # a\n    # b\n    "]
 
 
 def file_text(case: dict, path: str, root: str) -> str:
@@ -342,7 +346,7 @@ def file_text(case: dict, path: str, root: str) -> str:
                     lit = "./" + lit  # a bare name would be an identifier, not a path literal
         if imp.get("paren") and not (fault and fault["hop"] == hop_index and fault["kind"].startswith("non_path")):
             lit = "(" + lit + ")"
-        lines.append("  %s = import %s;" % (key, lit))
+        lines.append("  %s = import%s%s;" % (key, imp.get("gap", " "), lit))
     lines.append("}")
     return "\n".join(lines) + "\n"
 
